@@ -169,6 +169,10 @@ const (
 )
 
 func c06run(out *rec.Out, c c06case, rng *rec.Rng, stats map[string]int) {
+	c06runAs(out, "c06", c, rng, stats)
+}
+
+func c06runAs(out *rec.Out, fam string, c c06case, rng *rec.Rng, stats map[string]int) {
 	g := eng.NewGraph()
 	par := ""
 	var subNode *eng.Node
@@ -221,7 +225,7 @@ func c06run(out *rec.Out, c c06case, rng *rec.Rng, stats map[string]int) {
 		g.Connect(subNode, oen, nil)
 		stats["gateway_inside_a_sub_process"]++
 	}
-	out.Begin("c06", c.k, c.mode, c06seqString(c.seq), c.perturb, rec.B(c.sub), rec.B(c.forkdown), rec.B(c.inclmerge))
+	out.Begin(fam, c.k, c.mode, c06seqString(c.seq), c.perturb, rec.B(c.sub), rec.B(c.forkdown), rec.B(c.inclmerge))
 	defer out.End()
 
 	var ctl *sched.Controller
@@ -444,4 +448,25 @@ func c06run(out *rec.Out, c c06case, rng *rec.Rng, stats map[string]int) {
 	}
 	out.Line("obs final complete=%d", rec.B(complete))
 	in.Stop(1 * timeSecond)
+}
+
+// Family c05ebg (C05): the c06 cases in which the alternatives' branches are MERGED BY AN INCLUSIVE GATEWAY — the tokens the
+// event-based gateway withdraws have ended: the inclusive join behind them must not wait for them.
+func init() {
+	sel := func(tier string) []c06case {
+		var cs []c06case
+		for _, c := range c06cases(tier) {
+			if c.inclmerge && c.perturb == 0 && (c.mode == "seq" || c.mode == "wit" || c.mode == "wit2") {
+				cs = append(cs, c)
+			}
+		}
+		return cs
+	}
+	caseFamilies["c05ebg"] = &caseFamily{
+		Shard: 1, Par: 12,
+		Count: func(tier string) int { return len(sel(tier)) },
+		Run: func(out *rec.Out, idx int, rng *rec.Rng, tier string, stats map[string]int) {
+			c06runAs(out, "c05ebg", sel(tier)[idx], rng, stats)
+		},
+	}
 }
